@@ -27,6 +27,8 @@ F2  serialize_to_json_utf8():  `s = H(obj)` as first statement, H a module-level
     (parameter renamed to `obj`; H has no other locals, so no capture) and continuing after the call site is the same
     computation, with the same exceptions propagating from the same points.  The result is then matched exactly as the
     inline form.  (translate/normalize.py does not inline H because its returns sit inside try.)
+F3  Subscription.send():  `if len(self.queue) < MAX: append else: pass`  ==  the same `if` without an else branch
+    (an absent else branch and `else: pass` both execute nothing when the test is false).
 Not accepted (stay fail-closed): IncidentReporter writing to both files with `for f in (self.f1, self.f2): ...`
     instead of two statements: the tuple reads self.f2 BEFORE the first write, the two-statement form after it (caching
     an attribute across a call); and `if remaining < 0: stop else: write` for `if remaining >= 0: write; return` + stop,
@@ -506,7 +508,8 @@ def generate():
         bail("Subscription.send compares %s with %s" % (l, r))
     if [U(x) for x in send.body[0].body] != ["self.queue.append(event)"]:
         bail("Subscription.send: accept branch changed")
-    if [U(x) for x in send.body[0].orelse] != ["pass"]:
+    # `else: pass` and no else branch at all are the same statement: nothing is executed when the test is false
+    if [U(x) for x in send.body[0].orelse] not in (["pass"], []):
         bail("Subscription.send: overflow branch no longer drops the new event")
     want_mark = "if not self.marked_for_sending:\n    self.marked_for_sending = True\n    eventually(self.start_sending)"
     if U(send.body[1]) != want_mark:
